@@ -4,6 +4,7 @@ import Driver.Session
 import Driver.Conc
 import Driver.Keys
 import Driver.Tcp
+import Driver.Usb
 /-
   Model driver: one request per line on stdin, one reply line per request on stdout.
   The Python harness sends the same operations to the real implementation and diffs.
@@ -14,6 +15,7 @@ structure DState where
   store : Store := []
   sess : Sess := {}
   conc : Adb.Conc.Sys := { wire := [], readers := [] }
+  usb : UsbSt := {}
 
 def showQItems (q : List QItem) : String :=
   "[" ++ ",".intercalate (q.map (fun (c, d) => c.name ++ ":" ++ toHex d)) ++ "]"
@@ -104,6 +106,7 @@ def step (st : DState) (line : String) : DState × String :=
   match tokens line with
   | "codec" :: rest => (st, stepCodec rest)
   | "store" :: rest => stepStore st rest
+  | "usb" :: rest => let (u', out) := stepUsb st.usb rest; ({ st with usb := u' }, out)
   | "tcp" :: rest => (st, stepTcp rest)
   | "keys" :: rest => (st, stepKeys rest)
   | "conc" :: rest => let (c', out) := stepConc st.conc rest; ({ st with conc := c' }, out)
